@@ -1,5 +1,6 @@
 From Coq Require Import NArith Arith List Bool.
 Require Export RasnV.Model.Base RasnV.Model.Names RasnV.Model.Components.
+Require RasnV.Model.Expansion.
 Import ListNotations.
 
 Definition field_eqb (a b : field) : bool :=
@@ -11,3 +12,10 @@ Definition corr (c : bool * str * list member * bool * list member * list field)
   let '(is_choice, parent, r, marker, a, obs) := c in
   let s := assemble (map CMember r) marker (map CMember a) in
   list_eqb field_eqb (if is_choice then variants_of parent s else fields_of parent s) obs.
+
+(* COMPONENTS OF with an extension marker: (own root components, own additions, copied components, marker,
+   observed (field name, extension_addition?)) against the linker model *)
+Definition flagged_eqb (a b : str * bool) : bool := str_eqb (fst a) (fst b) && Bool.eqb (snd a) (snd b).
+Definition corr_link (c : list str * list str * list str * bool * list (str * bool)) : bool :=
+  let '(own_root, own_adds, copied, marker, obs) := c in
+  list_eqb flagged_eqb (Expansion.link_marked own_root own_adds copied marker) obs.
